@@ -132,6 +132,8 @@ class Selective:
 def _run_lock_from_state(pkg, lock_bytes, items, cache):
     """channel composition: fresh Tape(lock) run by run_tape on a stack holding `items`; verdict as run_auth_scripts"""
     F, C = pkg.functions, pkg.classes
+    from sx import core as _core
+    _core.ABSTRACT['xor_uf'] = True          # OP_EQUAL's constant-time compare: xor as UF with the zero / cancellation lemmas
     stack = C.Stack()
     for it in items:
         stack.deque.items.append(it)
